@@ -81,7 +81,7 @@ def cases(tier, seed):
     out.append(Case("epsilon>1:bar0", kind="epsilon", seed=seed))
     out.append(Case("vector-potential-shape:bar0", kind="shape", seed=seed))
     out.append(Case("seed-from-other-device:bar0", kind="seed", seed=seed))
-    for ch in ("london_lambda", "gamma", "coherence_length"):
+    for ch in ("london_lambda", "gamma", "thickness"):
         out.append(Case(f"seed-from-device-changed-in-place:{ch}", kind="seedhist", change=ch, seed=seed))
     out.append(Case("terminal-touches-no-boundary", kind="terminal", seed=seed))
     out.append(Case("unbalanced-time-dependent:bar2", kind="timedep", dev="bar2", seed=seed))
